@@ -16,6 +16,7 @@ mod plans;
 mod plancache;
 mod scn;
 mod slabobs;
+mod solver;
 mod stream;
 mod util;
 
@@ -58,6 +59,7 @@ fn dispatch(cmd: &str, opts: &util::Opts) {
         "slabobs" => slabobs::run(opts),
         "linear" => linear::run(opts),
         "plans" => plans::run(opts),
+        "solver" => solver::run(opts),
         "matrix-replay" => matrix::replay(opts),
         "plancache-replay" => plancache::replay(opts),
         "plancache-log" => plancache::log(opts),
